@@ -31,7 +31,8 @@ VARIABLES
   fileIs,       \* ghost: "none" before store(); then "exact" (exactly the serialized bytes) | "stale-tail"
   loader, flags, cause, flen,   \* the configuration (constant during a run)
   pcl,          \* program counter of the loader
-  region,       \* [kind, cap, state ("none" | "live" | "released"), releases, tailzero]
+  region,       \* [kind, cap, state ("none" | "live" | "released"), releases, tailzero, prot ("rw" | "r")]
+  advised,      \* how many madvise() calls have been issued on the mapping (Flags -> kernel advice)
   caseB, caseS, \* which halves of the MaybeUninit<MemCase> have been written
   result,       \* "pending" | "ok" | name of the error | "panic"
   owner,        \* where the returned case lives: "none" | "stack" | "box" | "thread" | "arc" | "dropped"
@@ -40,16 +41,25 @@ VARIABLES
   order,        \* history of release events: sequence of "S" / "B"
   steps         \* number of owner operations performed
 
-mvars == <<prior, fileIs, loader, flags, cause, flen, pcl, region, caseB, caseS, result, owner, readers, sDropped, order, steps>>
+mvars == <<prior, fileIs, loader, flags, cause, flen, pcl, region, advised, caseB, caseS, result, owner, readers, sDropped, order, steps>>
 
-NoRegion == [kind |-> "none", cap |-> 0, state |-> "none", releases |-> 0, tailzero |-> TRUE]
+NoRegion == [kind |-> "none", cap |-> 0, state |-> "none", releases |-> 0, tailzero |-> TRUE, prot |-> "rw"]
+
+\* Flags (bit 0 TRANSPARENT_HUGE_PAGES, bit 1 SEQUENTIAL, bit 2 RANDOM_ACCESS) -> mmap_rs::MmapFlags -> the
+\* madvise() calls mmap-rs issues on the fresh mapping, in this order (Flags::mmap_flags, mmap-rs unix.rs)
+Bit(f, i) == (f \div (2 ^ i)) % 2 = 1
+AdviceOf(f) == (IF Bit(f, 0) THEN <<"HUGEPAGE">> ELSE <<>>) \o (IF Bit(f, 1) THEN <<"SEQUENTIAL">> ELSE <<>>)
+               \o (IF Bit(f, 2) THEN <<"RANDOM">> ELSE <<>>)
 
 MInit(L, F, C, N) ==
   /\ prior \in {"absent", "shorter", "longer"} /\ fileIs = "none"
   /\ loader \in L /\ flags \in F /\ cause \in C /\ flen \in N
-  /\ pcl = "store" /\ region = NoRegion /\ caseB = FALSE /\ caseS = FALSE
+  /\ pcl = "store" /\ region = NoRegion /\ advised = 0 /\ caseB = FALSE /\ caseS = FALSE
   /\ result = "pending" /\ owner = "none" /\ readers = 0 /\ sDropped = FALSE /\ order = <<>> /\ steps = 0
 
+\* a header cut short and zero-extended can fail any of the header checks
+HeaderErrors == {"MagicCookieError", "EndiannessError", "MajorVersionMismatch", "MinorVersionMismatch", "UsizeSizeMismatch",
+                 "WrongTypeHash", "WrongAlignHash"}
 \* what ε-copy deserialization of the region's bytes yields, by failure cause
 DeserOutcome ==
   CASE cause = "valid" -> {"ok"}
@@ -58,7 +68,8 @@ DeserOutcome ==
     [] cause = "corrupt" -> {"MagicCookieError"}
     [] cause = "empty" -> {"ReadError"}
     \* a truncated file: the copying loaders zero-extend it, so it may even parse; mapping it does not
-    [] cause = "trunc" -> IF loader \in {"load_mem", "load_mmap"} THEN {"ok", "ReadError", "panic", "AlignmentError"}
+    [] cause = "trunc" -> IF loader \in {"load_mem", "load_mmap"}
+                          THEN {"ok", "ReadError", "panic", "AlignmentError"} \cup HeaderErrors
                           ELSE {"ReadError", "panic"}
     [] OTHER -> {"ok"}
 
@@ -72,23 +83,23 @@ Store ==
   /\ pcl = "store"
   /\ fileIs' = IF prior = "longer" /\ BugNoTruncate THEN "stale-tail" ELSE "exact"
   /\ pcl' = "start"
-  /\ UNCHANGED <<prior, loader, flags, cause, flen, region, caseB, caseS, result, owner, readers, sDropped, order, steps>>
+  /\ UNCHANGED <<prior, loader, flags, cause, flen, region, caseB, caseS, result, owner, readers, sDropped, order, steps, advised>>
 
 \* Deserialize::load_mem pre-check: align_of::<Self>() > align_of::<MemoryAlignment>()
 PreCheck ==
   /\ pcl = "start"
   /\ IF loader = "load_mem" /\ cause = "bigalign"
-     THEN Fin("AlignmentError") /\ UNCHANGED <<region, caseB, caseS, owner>>
-     ELSE pcl' = "stat" /\ UNCHANGED <<result, region, caseB, caseS, owner>>
-  /\ UNCHANGED <<prior, fileIs, loader, flags, cause, flen, readers, sDropped, order, steps>>
+     THEN Fin("AlignmentError") /\ UNCHANGED <<region, caseB, caseS, owner, advised>>
+     ELSE pcl' = "stat" /\ UNCHANGED <<result, region, caseB, caseS, owner, advised>>
+  /\ UNCHANGED <<prior, fileIs, loader, flags, cause, flen, readers, sDropped, order, steps, advised>>
 
 \* metadata() / File::open
 Stat ==
   /\ pcl = "stat"
   /\ IF cause = "missing"
-     THEN Fin(IF loader = "load_full" THEN "FileOpenError" ELSE "Io") /\ UNCHANGED <<region, caseB, caseS, owner>>
-     ELSE pcl' = (IF loader = "load_full" THEN "deser" ELSE "alloc") /\ UNCHANGED <<result, region, caseB, caseS, owner>>
-  /\ UNCHANGED <<prior, fileIs, loader, flags, cause, flen, readers, sDropped, order, steps>>
+     THEN Fin(IF loader = "load_full" THEN "FileOpenError" ELSE "Io") /\ UNCHANGED <<region, caseB, caseS, owner, advised>>
+     ELSE pcl' = (IF loader = "load_full" THEN "deser" ELSE "alloc") /\ UNCHANGED <<result, region, caseB, caseS, owner, advised>>
+  /\ UNCHANGED <<prior, fileIs, loader, flags, cause, flen, readers, sDropped, order, steps, advised>>
 
 \* std::alloc::alloc / MmapOptions::map_mut / MmapOptions::with_file().map()
 Alloc ==
@@ -98,45 +109,54 @@ Alloc ==
         THEN \* a zero-length mapping is refused by the kernel: nothing was created
              Fin("Io") /\ UNCHANGED region
         ELSE /\ region' = [kind |-> RegionKind(loader), cap |-> cap, state |-> "live", releases |-> 0,
-                           tailzero |-> (loader = "mmap")]
-             /\ pcl' = (IF loader = "mmap" THEN "wrap" ELSE "read") /\ UNCHANGED result
-  /\ UNCHANGED <<prior, fileIs, loader, flags, cause, flen, caseB, caseS, owner, readers, sDropped, order, steps>>
+                           tailzero |-> (loader = "mmap"), prot |-> (IF loader = "mmap" THEN "r" ELSE "rw")]
+             /\ pcl' = (IF RegionKind(loader) = "map" THEN "advise" ELSE "read") /\ UNCHANGED result
+  /\ UNCHANGED <<prior, fileIs, loader, flags, cause, flen, caseB, caseS, owner, readers, sDropped, order, steps, advised>>
+
+\* mmap-rs: one madvise(addr, cap, advice) per requested flag, right after the mapping was created
+Advise ==
+  /\ pcl = "advise"
+  /\ IF advised < Len(AdviceOf(flags))
+     THEN advised' = advised + 1 /\ UNCHANGED pcl
+     ELSE pcl' = (IF loader = "mmap" THEN "wrap" ELSE "read") /\ UNCHANGED advised
+  /\ UNCHANGED <<prior, fileIs, loader, flags, cause, flen, region, caseB, caseS, result, owner, readers, sDropped, order, steps>>
 
 \* file.read_exact(&mut bytes[..file_len]) then bytes[file_len..].fill(0); the region is still a local:
 \* an error here drops it normally
 ReadFill ==
   /\ pcl = "read"
   /\ region' = [region EXCEPT !.tailzero = TRUE] /\ pcl' = "wrap"
-  /\ UNCHANGED <<prior, fileIs, loader, flags, cause, flen, caseB, caseS, result, owner, readers, sDropped, order, steps>>
+  /\ UNCHANGED <<prior, fileIs, loader, flags, cause, flen, caseB, caseS, result, owner, readers, sDropped, order, steps, advised>>
 
 \* addr_of_mut!((*ptr).1).write(backend): from here on the region is owned by the uninitialised case
 Wrap ==
   /\ pcl = "wrap" /\ caseB' = TRUE /\ pcl' = "deser"
-  /\ UNCHANGED <<prior, fileIs, loader, flags, cause, flen, region, caseS, result, owner, readers, sDropped, order, steps>>
+  /\ region' = IF loader = "load_mmap" THEN [region EXCEPT !.prot = "r"] ELSE region   \* mmap.make_read_only()
+  /\ UNCHANGED <<prior, fileIs, loader, flags, cause, flen, caseS, result, owner, readers, sDropped, order, steps, advised>>
 
 \* Self::deserialize_eps(mem)? (load_full: deserialize_full of the file)
 Deser ==
   /\ pcl = "deser"
   /\ \E out \in DeserOutcome :
        IF out = "ok"
-       THEN /\ caseS' = TRUE /\ pcl' = "ret" /\ UNCHANGED <<result, region, order>>
+       THEN /\ caseS' = TRUE /\ pcl' = "ret" /\ UNCHANGED <<result, region, order, advised>>
        ELSE \* the error path: the backend written into the MaybeUninit must be released
             /\ Fin(out) /\ UNCHANGED caseS
             /\ IF caseB /\ ~BugLeakOnError
                THEN region' = [region EXCEPT !.state = "released", !.releases = @ + 1] /\ order' = Append(order, "B")
-               ELSE UNCHANGED <<region, order>>
-  /\ UNCHANGED <<prior, fileIs, loader, flags, cause, flen, caseB, owner, readers, sDropped, steps>>
+               ELSE UNCHANGED <<region, order, advised>>
+  /\ UNCHANGED <<prior, fileIs, loader, flags, cause, flen, caseB, owner, readers, sDropped, steps, advised>>
 
 \* Ok(uninit.assume_init())
 Return ==
   /\ pcl = "ret" /\ Fin("ok") /\ owner' = "stack"
-  /\ UNCHANGED <<prior, fileIs, loader, flags, cause, flen, region, caseB, caseS, readers, sDropped, order, steps>>
+  /\ UNCHANGED <<prior, fileIs, loader, flags, cause, flen, region, caseB, caseS, readers, sDropped, order, steps, advised>>
 
 (* ---- the owner ---- *)
 Owned == result = "ok" /\ owner \notin {"none", "dropped"} /\ ~sDropped
 OwnerStep(o) ==
   /\ Owned /\ readers = 0 /\ steps < MaxSteps /\ owner' = o /\ steps' = steps + 1
-  /\ UNCHANGED <<prior, fileIs, loader, flags, cause, flen, pcl, region, caseB, caseS, result, readers, sDropped, order>>
+  /\ UNCHANGED <<prior, fileIs, loader, flags, cause, flen, pcl, region, caseB, caseS, result, readers, sDropped, order, advised>>
 Move == OwnerStep(owner)                      \* a move changes the address of the case, nothing else
 BoxIt == owner = "stack" /\ OwnerStep("box")
 Unbox == owner = "box" /\ OwnerStep("stack")
@@ -144,23 +164,23 @@ SendTo == OwnerStep("thread")                 \* moved into another thread
 SendBack == owner = "thread" /\ OwnerStep("stack")
 ShareArc == owner = "stack" /\ OwnerStep("arc")
 ReaderEnter == /\ Owned /\ owner = "arc" /\ readers < 2 /\ readers' = readers + 1
-               /\ UNCHANGED <<prior, fileIs, loader, flags, cause, flen, pcl, region, caseB, caseS, result, owner, sDropped, order, steps>>
+               /\ UNCHANGED <<prior, fileIs, loader, flags, cause, flen, pcl, region, caseB, caseS, result, owner, sDropped, order, steps, advised>>
 ReaderLeave == /\ Owned /\ readers > 0 /\ readers' = readers - 1
-               /\ UNCHANGED <<prior, fileIs, loader, flags, cause, flen, pcl, region, caseB, caseS, result, owner, sDropped, order, steps>>
+               /\ UNCHANGED <<prior, fileIs, loader, flags, cause, flen, pcl, region, caseB, caseS, result, owner, sDropped, order, steps, advised>>
 Unshare == owner = "arc" /\ readers = 0 /\ OwnerStep("stack")   \* Arc::try_unwrap
 
 \* drop(MemCase): fields in declaration order: the structure, then the backend
 DropS ==
   /\ Owned /\ readers = 0 /\ sDropped' = TRUE /\ order' = Append(order, "S")
-  /\ UNCHANGED <<prior, fileIs, loader, flags, cause, flen, pcl, region, caseB, caseS, result, owner, readers, steps>>
+  /\ UNCHANGED <<prior, fileIs, loader, flags, cause, flen, pcl, region, caseB, caseS, result, owner, readers, steps, advised>>
 DropB ==
   /\ result = "ok" /\ sDropped /\ owner # "dropped"
   /\ owner' = "dropped" /\ order' = Append(order, "B")
   /\ region' = IF region.state = "live" THEN [region EXCEPT !.state = "released", !.releases = @ + 1] ELSE region
-  /\ UNCHANGED <<prior, fileIs, loader, flags, cause, flen, pcl, caseB, caseS, result, readers, sDropped, steps>>
+  /\ UNCHANGED <<prior, fileIs, loader, flags, cause, flen, pcl, caseB, caseS, result, readers, sDropped, steps, advised>>
 
 MNext ==
-  \/ Store \/ PreCheck \/ Stat \/ Alloc \/ ReadFill \/ Wrap \/ Deser \/ Return
+  \/ Store \/ PreCheck \/ Stat \/ Alloc \/ Advise \/ ReadFill \/ Wrap \/ Deser \/ Return
   \/ Move \/ BoxIt \/ Unbox \/ SendTo \/ SendBack \/ ShareArc \/ ReaderEnter \/ ReaderLeave \/ Unshare
   \/ DropS \/ DropB
 
@@ -176,6 +196,12 @@ RegionSound ==
      /\ (loader \in {"load_mem", "load_mmap"} => region.tailzero)
 \* the region is live whenever anything can read through the structure
 LiveWhileReadable == (Owned \/ readers > 0) => (loader = "load_full" \/ region.state = "live")
+
+\* (beyond the listed properties) every requested advice was given before the region is used, and a mapping
+\* handed to the caller is read-only
+AdviceGiven == (region.kind = "map" /\ pcl \in {"read", "wrap", "deser", "ret", "done"} /\ region.state # "none")
+                  => advised = Len(AdviceOf(flags))
+MappingReadOnly == (result = "ok" /\ region.kind = "map") => region.prot = "r"
 
 (* C09 *)
 ReleasedAtMostOnce == region.releases <= 1
